@@ -49,6 +49,8 @@ def gen_family(rng, variant):
         return rng.choice(['vc', 'scripted', 'parser', 'linker', 'linker', 'alias', 'tracer', 'alias+tracer'])
     if variant == 'reindex':
         return rng.choice(['vc', 'vc', 'scripted', 'parser', 'pandasmixin', 'pandasmixin'])
+    if variant == 'labels':
+        return rng.choice(['vc', 'vc', 'vc', 'scripted', 'parser', 'linker', 'alias', 'alias'])
     return rng.choice(['vc', 'vc', 'vc', 'scripted', 'parser', 'linker'])
 
 
@@ -185,7 +187,7 @@ def generate(rng, idx, tier, variant):
     fam = gen_family(rng, variant)
     n = rng.randint(1, 12 if tier == 'thorough' else 8)
     stype = rng.choice(LINKER_SPANS if fam == 'linker' else spans.TYPES)
-    spec = {'family': fam, 'span': {'type': stype, 'n': n, 'origin': rng.choice([0, 1, 3, 7])}, 'strict': rng.random() < 0.25}
+    spec = {'family': fam, 'span': {'type': stype, 'n': n, 'origin': rng.choice([0, 1, 3, 7]), 'step': rng.choice([2, 2, 3])}, 'strict': rng.random() < 0.25}
     g = {'base': 0, 'names': {0: []}, 'np': 1}
     ELEMS = {'float': 'float', 'int': 'int', 'bool': 'bool', 'str': 'str'}
     if fam in ('scripted', 'alias', 'tracer', 'alias+tracer', 'pandasmixin'):
@@ -201,6 +203,11 @@ def generate(rng, idx, tier, variant):
             al = {}
             for i in range(rng.randint(1, 3)):
                 al[f'AL{i}'] = rng.choice(names + list(al))
+            if stype in ('list_str', 'np_str', 'pd_index_str') and rng.random() < 0.7:
+                # aliases spelt like period labels: a name and a label live in different namespaces
+                o_ = spec['span']['origin']
+                for i in rng.sample(range(n), min(n, 2)):
+                    al[f'p{o_ + i}'] = rng.choice(names)
             spec['aliases'] = [[k_, v_] for k_, v_ in al.items()]
     elif fam == 'parser':
         prog = scripts.gen_program(rng, max_eq=3, max_lag=1, max_lead=1)
@@ -229,9 +236,9 @@ def generate(rng, idx, tier, variant):
     n_ops = rng.randint(5, 40 if tier == 'thorough' else 24)
     W = {
         'container': {'add_variable': 3, 'setattr': 5, 'setitem': 3, 'setitem_label': 2, 'setitem_slice': 2, 'set_pos': 2, 'replace_values': 2, 'set_values': 2, 'add_attribute': 1, 'set_attr_plain': 2, 'set_strict': 1, 'get': 2, 'spawn': 0.5, 'reindex': 0.3},
-        'labels': {'add_variable': 1, 'setattr': 1, 'setitem_label': 6, 'setitem_slice': 6, 'set_pos': 2, 'get': 4, 'setitem': 1},
+        'labels': {'add_variable': 1, 'setattr': 1, 'setitem_label': 6, 'setitem_slice': 6, 'set_pos': 2, 'get': 4, 'setitem': 1, 'reindex': 1.5, 'reuse_key': 3, 'spawn': 0.5},
         'copies': {'mutate_any': 5, 'add_variable': 2, 'setattr': 3, 'setitem_label': 1, 'setitem_slice': 1, 'set_pos': 3, 'replace_values': 1, 'set_values': 1, 'add_attribute': 1, 'set_attr_plain': 2, 'set_strict': 1, 'spawn': 5, 'mutate_list': 5, 'solve': 2, 'sub_poke': 2, 'reindex': 0.5},
-        'reindex': {'add_variable': 3, 'setattr': 3, 'set_pos': 2, 'setitem_slice': 1, 'reindex': 6, 'solve': 2, 'set_strict': 1, 'spawn': 0.5},
+        'reindex': {'add_variable': 3, 'setattr': 3, 'set_pos': 2, 'setitem_slice': 1, 'get': 1, 'reuse_key': 1, 'reindex': 6, 'solve': 2, 'set_strict': 1, 'spawn': 0.5},
     }[variant]
     kinds, weights = zip(*sorted(W.items()))
     for _ in range(n_ops):
@@ -248,7 +255,13 @@ def generate(rng, idx, tier, variant):
                 nm = f'N{len(ops)}'
                 good = rng.random() < 0.6
                 vs = _good_vspec(rng, g, dt) if good else _vspec(rng, g, elem=dt)
+                if good and dt == 'int' and rng.random() < 0.3:
+                    vs['e'] = 'bigint'  # integers that a detour through float64 would corrupt
                 ops.append({'op': 'add_variable', 'obj': p, 'name': nm, 'value': vs, 'dtype': rng.choice([None, None, dt])})
+                if variant == 'copies' and rng.random() < 0.35:
+                    ops[-1].update({'pool': rng.randrange(2), 'dtype': rng.choice([None, 'float']), 'value': {'k': 'seq', 'c': 'ndarray', 'len': 'n', 'e': 'float', 'base': 0}})
+                    good = True
+                    dt = 'float'
                 if good:
                     names.append((nm, dt))
                     g['names'][p] = names
@@ -315,7 +328,9 @@ def generate(rng, idx, tier, variant):
             if r < 0.4 and names:
                 nm = pick()[0]
                 nm = rng.choice([nm + 'x', nm.lower() + '_', nm[:-1] + 'Q' if len(nm) > 1 else nm + 'q'])  # near miss of a variable
-            elif r < 0.55:
+            elif r < 0.48 and names:
+                nm = '_' + pick()[0]  # the storage key of a variable: still not an attribute the user may create
+            elif r < 0.58:
                 nm = rng.choice(['eval', 'copy', 'reindex', 'add_variable', 'to_dataframe', 'replace_values', 'solve', 'solve_t_before', 'LAGS', 'NAMES', 'CODE', 'get_closest_match'])
             else:
                 nm = rng.choice(['note', 'meta', 'tag', 'zzz']) + str(rng.randrange(3))
@@ -335,6 +350,8 @@ def generate(rng, idx, tier, variant):
                 g['np'] += 1
         elif kind == 'mutate_list':
             ops.append({'op': 'mutate_list', 'obj': p, 'attr': rng.choice(['check', 'endogenous', 'names', 'aliases', 'preferred_names', 'trace_names', 'index', 'submodels']), 'action': rng.choice(['append', 'append', 'remove', 'insert']), 'k': rng.randrange(4)})
+        elif kind == 'reuse_key':
+            ops.append({'op': 'reuse_key', 'obj': p, 'k': rng.randrange(1000), 'write': rng.random() < 0.4})
         elif kind == 'mutate_any':
             ops.append({'op': 'mutate_any', 'obj': p, 'k': rng.randrange(1000)})
         elif kind == 'solve':
@@ -381,7 +398,7 @@ def generate(rng, idx, tier, variant):
                     fills['iterations'] = rng.choice([0, 5, 0, 'X', 2.5])
             if rng.random() < 0.2:
                 fills['NOPE'] = 1
-            ops.append({'op': 'reindex', 'obj': p, 'idx': idxs, 'as': rng.choice(['same', 'same', 'list', 'np', 'pd']), 'fill_value': fv, 'fills': fills, 'strict': rng.choice([None, None, True, False])})
+            ops.append({'op': 'reindex', 'obj': p, 'idx': idxs, 'as': rng.choice(['same', 'same', 'list', 'np', 'pd']), 'fill_value': fv, 'fills': fills, 'strict': rng.choice([None, None, True, False]), 'mode': rng.choice(['idx'] * 8 + ['same-object', 'range-phase']), 'k': rng.randrange(3)})
             if g['np'] < MAXP:
                 g['names'][g['np']] = list(names)
                 g['np'] += 1
@@ -699,7 +716,8 @@ def execute(schedule, ctx):
     spec = schedule['spec']
     x0, span0 = build_first(fsic, spec)
     labels0 = spans.elements(span0)
-    universe_spec = dict(spec['span'], n=spec['span']['n'] + 6, origin=spec['span'].get('origin', 0) - 3) if spec['span']['type'] not in ('list_mixed',) else None
+    _st = spec['span'].get('step', 2) if spec['span']['type'] == 'range_step' else 1
+    universe_spec = dict(spec['span'], n=spec['span']['n'] + 6, origin=spec['span'].get('origin', 0) - 3 * _st) if spec['span']['type'] not in ('list_mixed',) else None
     P0 = Party(x0, labels0, spec['span'], spec['family'])
     P0.origin = 'original'
     parties = [P0]
@@ -709,6 +727,8 @@ def execute(schedule, ctx):
             classes['sub' + str(sid)] = type(sm)
     class_before = {k: O.obs_class(c) for k, c in classes.items()}
     wcount = [0]
+    operand_pool, operand_copy = {}, {}
+    recent_keys = []  # label / label-slice keys used so far, as label objects (re-used later on other parties)
 
     def positions_for_read(party):
         n = party.n
@@ -779,6 +799,14 @@ def execute(schedule, ctx):
         if kind == 'add_variable':
             nm = op['name']
             v = RC.make_value(op['value'], n)
+            if op.get('pool') is not None:
+                # the caller hands the very same writeable array to several operations / objects
+                key = (op['pool'], n)
+                if key not in operand_pool:
+                    operand_pool[key] = np.arange(n, dtype=float) + 1000.0 * (op['pool'] + 1)
+                    operand_copy[key] = operand_pool[key].copy()
+                v = operand_pool[key]
+                ctx.probe('caller-array-reused')
             dt = op.get('dtype')
             dtype_arg = None if dt is None else RC.DTYPES[dt]
             fn = lambda: x.add_variable(nm, v, dtype=dtype_arg) if dt is not None else x.add_variable(nm, v)  # noqa: E731
@@ -859,6 +887,7 @@ def execute(schedule, ctx):
                     party.sync()
                 elif op['pos'] < n:
                     lab = label_at(party, op['pos'], op.get('form', 0))
+                    recent_keys.append({'name': nm, 'single': lab})
                     cls_, new = RC.expect_positions(party.ref[nm], int(op['pos']), v)
                     ctx.probe(f'label-set:{sty}')
                     outcome = settle(cls_, new, nm, 'C10', f'label-set/span={sty}', lambda: x.__setitem__((nm, lab), v))
@@ -887,6 +916,7 @@ def execute(schedule, ctx):
                     party.sync()
                 else:
                     pos = RC.resolve_slice(party.labels, a, b, step)
+                    recent_keys.append({'name': nm, 'a': la, 'b': lb, 'step': step})
                     shape = 'open-start' if a is None else 'open-end' if b is None else 'a>b' if a > b else 'a==b' if a == b else 'a<b'
                     ctx.probe(f'slice-set:{sty}:{shape}:{"step" if step and step > 1 else "unit"}')
                     cls_, new = RC.expect_positions(party.ref[nm], RC.positional_slice(party.labels, a, b, step), v)
@@ -1025,7 +1055,10 @@ def execute(schedule, ctx):
         elif kind == 'set_attr_plain':
             nm = op['name']
             clsattr = hasattr(type(x), nm) and not isinstance(getattr(type(x), nm, None), property)
-            if nm in d['index'] or isinstance(getattr(type(x), nm, None), property) or (clsattr and not d['_strict']) or nm in d:
+            storage_key = nm.startswith('_') and nm[1:] in d['index']
+            if storage_key:
+                clsattr = True  # handled like a class attribute name: only ever tried under strict
+            if nm in d['index'] or isinstance(getattr(type(x), nm, None), property) or (clsattr and not d['_strict']) or (nm in d and not storage_key):
                 # (without strict, assigning over a method would only break the harness's own later calls)
                 outcome = 'skipped'
             else:
@@ -1042,7 +1075,7 @@ def execute(schedule, ctx):
                     if isinstance(e, NotImplementedError) and len(set(lower)) != len(lower):
                         ok = True
                     ctx.check('C09', 'strict/new-attribute-must-raise-AttributeError', ok, {'name': nm, 'exc': type(e).__name__ if e else None})
-                    ctx.check('C09', 'strict/no-new-key', nm not in d and nm not in d['_attributes'], {'name': nm})
+                    ctx.check('C09', 'strict/no-new-key', (nm not in d or storage_key) and nm not in d['_attributes'], {'name': nm})
                     ctx.check('C09', 'strict/failed-op-leaves-object-unchanged', O.obs(x) == before[i], None)
                     if isinstance(e, AttributeError) and 'Did you mean' in str(e):
                         sug = str(e).split("Did you mean: '")[1].split("'")[0]
@@ -1076,6 +1109,7 @@ def execute(schedule, ctx):
                 la = None if a is None else label_at(party, a, op.get('form', 0))
                 lb = None if b is None else label_at(party, b, 0)
                 pos = RC.resolve_slice(party.labels, a, b, step)
+                recent_keys.append({'name': nm, 'a': la, 'b': lb, 'step': step})
                 shape = 'open-start' if a is None else 'open-end' if b is None else 'a>b' if a > b else 'a==b' if a == b else 'a<b'
                 ctx.probe(f'slice-get:{sty}:{shape}:{"step" if step and step > 1 else "unit"}')
                 try:
@@ -1095,6 +1129,61 @@ def execute(schedule, ctx):
 
         elif kind == 'mutate_list':
             outcome = do_mutate_list(party, op, ctx)
+
+        elif kind == 'reuse_key':
+            # the very same label / label-slice key that was used earlier (possibly on the object this one was copied or
+            # reindexed from) is used again here: it must address the periods carrying those labels in THIS span
+            if not recent_keys or not party.unique:
+                outcome = 'skipped'
+            else:
+                key = recent_keys[op['k'] % len(recent_keys)]
+                nm = key['name']
+
+                def where(lbl):
+                    for j_, o_ in enumerate(party.labels):
+                        try:
+                            if bool(o_ == lbl):
+                                return j_
+                            # the exact string form of a period / timestamp addresses it only on a pandas time index
+                            if isinstance(lbl, str) and type(d['span']).__name__ in ('PeriodIndex', 'DatetimeIndex') and str(o_) == lbl:
+                                return j_
+                        except Exception:
+                            pass
+                    return None
+
+                if nm not in party.ref:
+                    outcome = 'skipped'
+                elif 'single' in key:
+                    p_ = where(key['single'])
+                    if p_ is None:
+                        e = attempt(lambda: x[nm, key['single']])
+                        ctx.check('C10', 'reused-label/absent-here-must-raise-KeyError', isinstance(e, KeyError), {'exc': type(e).__name__ if e else None, 'label': repr(key['single'])})
+                        outcome = 'absent'
+                    else:
+                        try:
+                            got = x[nm, key['single']]
+                            ctx.check('C10', 'reused-label/addresses-its-period-in-this-span', _scalar_eq(got, party.ref[nm][p_]), {'label': repr(key['single']), 'position-here': p_, 'got': canon(got), 'want': canon(party.ref[nm][p_])})
+                        except Exception as e:
+                            ctx.check('C10', 'reused-label/addresses-its-period-in-this-span', False, {'exc': type(e).__name__, 'label': repr(key['single'])})
+                        ctx.probe('reused-label:' + party.origin)
+                        outcome = 'ok'
+                else:
+                    pa = None if key['a'] is None else where(key['a'])
+                    pb = None if key['b'] is None else where(key['b'])
+                    if (key['a'] is not None and pa is None) or (key['b'] is not None and pb is None):
+                        e = attempt(lambda: x[nm, slice(key['a'], key['b'], key['step'])])
+                        ctx.check('C10', 'reused-slice/absent-here-must-raise-KeyError', isinstance(e, KeyError), {'exc': type(e).__name__ if e else None})
+                        outcome = 'absent'
+                    else:
+                        pos = RC.resolve_slice(party.labels, pa, pb, key['step'])
+                        want = party.ref[nm][np.array(pos, dtype=int)]
+                        try:
+                            got = x[nm, slice(key['a'], key['b'], key['step'])]
+                            ctx.check('C10', 'reused-slice/addresses-its-periods-in-this-span', isinstance(got, np.ndarray) and got.shape == want.shape and RC.arrays_equal(np.asarray(got), want), {'got': canon(np.asarray(got).tolist()), 'want': canon(want.tolist()), 'party': party.origin})
+                        except Exception as e:
+                            ctx.check('C10', 'reused-slice/addresses-its-periods-in-this-span', False, {'exc': type(e).__name__, 'party': party.origin})
+                        ctx.probe('reused-slice:' + party.origin)
+                        outcome = 'ok'
 
         elif kind == 'mutate_any':
             found = reachable_mutables(x)
@@ -1149,6 +1238,10 @@ def execute(schedule, ctx):
         # -------------------------------------------------------------- after every operation
         for pj in parties:
             invariants(pj, ctx, 'after-' + kind)
+        for key, arr in operand_pool.items():
+            if not RC.arrays_equal(arr, operand_copy[key]):
+                ctx.check('C11', f'callers-array-changed/{kind}', False, {'pool': key[0]})
+                arr[:] = operand_copy[key]
         values_size(party, ctx)
         if kind == 'mutate_any':
             pass  # judged while the mutation was in place, then undone
@@ -1338,9 +1431,22 @@ def do_reindex(fsic, parties, party, op, ctx, before_obs, universe_spec, spec):
     if not idxs:
         return 'skipped'
     how = op['as']
+    mode = op.get('mode', 'idx')
     contiguous = idxs == list(range(idxs[0], idxs[0] + len(idxs)))
     ty = party.span_spec['type']
-    if how == 'same' and contiguous:
+    if mode == 'same-object':
+        # the caller passes the object's own span back in
+        new_span = d['span']
+        new_type = 'same-object'
+        idxs = list(old_idx)
+    elif mode == 'range-phase' and ty == 'range_step':
+        # a stepped range out of phase with the old one: overlapping in extent, no label in common
+        st = party.span_spec.get('step', 2)
+        o = party.span_spec.get('origin', 0) + 1 + (op.get('k', 0) % max(1, st - 1))
+        new_span = range(o, o + n * st, st)
+        new_type = 'range-out-of-phase'
+        idxs = None
+    elif how == 'same' and contiguous:
         new_span = spans.make_span(dict(party.span_spec, n=len(idxs), origin=universe_spec['origin'] + idxs[0]))
         new_type = ty
     else:
@@ -1357,9 +1463,25 @@ def do_reindex(fsic, parties, party, op, ctx, before_obs, universe_spec, spec):
             new_span = list(items)
             new_type = 'list'
     new_labels = spans.elements(new_span)
-    if [str(a) for a in new_labels] != [str(uni_labels[j]) for j in idxs]:
+    if idxs is not None and [str(a) for a in new_labels] != [str(uni_labels[j]) for j in idxs]:
         return 'skipped'
-    relation = 'same' if idxs == old_idx else 'repeat' if len(set(idxs)) < len(idxs) else 'permute' if sorted(idxs) != idxs else 'disjoint' if not set(idxs) & set(old_idx) else 'shift-or-resize'
+    # where does each new period come from? decided by label equality against the old span, nothing else
+    def _find(lbl):
+        for j_, o_ in enumerate(party.labels):
+            try:
+                if bool(o_ == lbl):
+                    return j_
+            except Exception:
+                pass
+        return None
+
+    source = [_find(lbl) for lbl in new_labels]
+    if idxs is None:
+        relation = 'out-of-phase'
+    else:
+        relation = 'same' if idxs == old_idx else 'repeat' if len(set(idxs)) < len(idxs) else 'permute' if sorted(idxs) != idxs else 'disjoint' if not set(idxs) & set(old_idx) else 'shift-or-resize'
+    if mode == 'same-object':
+        relation = 'same-object'
     ctx.probe(f'reindex:{relation}:{new_type}')
     is_model = 'names' in d and 'status' in d['index']
     fills = dict(op['fills'])
@@ -1413,13 +1535,13 @@ def do_reindex(fsic, parties, party, op, ctx, before_obs, universe_spec, spec):
                 val = str(val)
                 if len(val) > dt.itemsize // 4:
                     lossy = True
-            arr = np.full(len(idxs), val, dtype=dt)
+            arr = np.full(len(new_labels), val, dtype=dt)
         except Exception:
             lossy = True
             continue
-        for newpos, j in enumerate(idxs):
-            if j in old_idx:
-                arr[newpos] = old[old_idx.index(j)]
+        for newpos, j in enumerate(source):
+            if j is not None:
+                arr[newpos] = old[j]
         expected[nm] = arr
     if lossy:
         ctx.probe('reindex:fill-incompatible-with-dtype')
@@ -1440,7 +1562,7 @@ def do_reindex(fsic, parties, party, op, ctx, before_obs, universe_spec, spec):
             ctx.check('C12', f'{sig}/series-present', False, {'name': nm})
             continue
         ctx.check('C12', f'{sig}/dtype-carried-over', got.dtype == party.ref[nm].dtype, {'name': nm, 'got': str(got.dtype), 'want': str(party.ref[nm].dtype)})
-        ctx.check('C12', f'{sig}/length', got.shape == (len(idxs),), {'name': nm, 'shape': list(got.shape)})
+        ctx.check('C12', f'{sig}/length', got.shape == (len(new_labels),), {'name': nm, 'shape': list(got.shape)})
         if nm in expected and got.shape == expected[nm].shape and got.dtype == expected[nm].dtype:
             kindname = {'f': 'float', 'i': 'int', 'u': 'int', 'b': 'bool', 'U': 'str'}.get(got.dtype.kind, 'other')
             src = 'per-variable' if nm in fills else 'fill_value' if fv is not None else 'default'
@@ -1449,7 +1571,7 @@ def do_reindex(fsic, parties, party, op, ctx, before_obs, universe_spec, spec):
             role = 'bookkeeping' if (is_model and nm in ('status', 'iterations')) else kindname
             # split the verdict: overlapping periods vs filled periods
             if not same:
-                ov = [p for p, j in enumerate(idxs) if j in old_idx]
+                ov = [p for p, j in enumerate(source) if j is not None]
                 keep_ok = all(_scalar_eq(got[p], expected[nm][p]) for p in ov)
                 which = 'fill' if keep_ok else 'overlap'
                 ctx.check('C12', f'{sig}/{which}/{role}-{src if which == "fill" else relation}', False, {'name': nm, 'got': canon(got.tolist()), 'want': canon(expected[nm].tolist()), 'relation': relation, 'kw': canon(kw)})
